@@ -724,3 +724,16 @@ Section Clauses.
       rewrite St, andb_false_r in H. discriminate.
   Qed.
 End Clauses.
+
+(* ---- the full default-count statement fails in binary64 ------------------------------- *)
+From Coq Require Import Floats.
+Lemma default_count_refuted :
+  exists start stop factor,
+    valid prim_ops start stop factor = true /\ PrimFloat.ltb 1%float factor = true /\
+    forall fuel, run prim_ops (mkP ApiList start stop CNone factor 0%float 0%nat) (S fuel) []
+                 = mkObs [] (ERaise ValueError).
+Proof.
+  exists 0x0.0000000000001p-1022%float, 1%float, 0x1.199999999999ap+0%float.
+  split; [vm_compute; reflexivity|]. split; [vm_compute; reflexivity|].
+  intro fuel. vm_compute. reflexivity.
+Qed.
